@@ -25,6 +25,10 @@ pub fn len_lattice(t: Tid, lmax: usize) -> Vec<usize> {
         0, 1, 2, 7, 8, 9, 15, 16, 17, 31, 32, 33, 63, 64, 65, 127, 128, 129, 191, 192, 193, 255, 256, 257,
     ];
     v.extend([w - 1, w, w + 1, 2 * w - 1, 2 * w, 2 * w + 1, c.saturating_sub(1), c]);
+    if t == TID_HUGE {
+        // absolute-size thresholds inside the 70 400-bit type
+        v.extend([4095, 4096, 4097, 8191, 8192, 8193, 32767, 32768, 32769, 65535, 65536, 65537, c - 65, c - 64, c - 63]);
+    }
     v.retain(|&x| x <= c);
     v.sort();
     v.dedup();
@@ -63,8 +67,12 @@ pub fn realize_len(sel: &LenSel, t: Tid, lmax: usize) -> usize {
         }
         LenSel::Uniform(f) => frac(*f, fixed_cap(t).unwrap_or(lmax) + 1),
         LenSel::Huge(i) => {
-            if fixed_cap(t).is_some() {
-                let l = len_lattice(t, lmax);
+            if let Some(c) = fixed_cap(t) {
+                let mut l = len_lattice(t, lmax);
+                if c >= 1023 {
+                    l.extend(HUGE_LENS.iter().copied().filter(|&x| x <= c));
+                    l.sort();
+                }
                 l[((*i as usize) * l.len()) >> 8]
             } else {
                 HUGE_LENS[((*i as usize) * HUGE_LENS.len()) >> 8]
@@ -222,16 +230,20 @@ pub fn arb_prov() -> impl Strategy<Value = Prov> {
         1 => (0..NT).prop_map(Prov::AddVec),
         1 => arb_nat_ty().prop_map(Prov::SubNat),
         1 => (0..NT).prop_map(Prov::OrLonger),
+        1 => prop_oneof![Just(70_000u32), Just(262_144), Just(300_000), Just(1_100_000)].prop_map(Prov::HugeSpare),
+        1 => prop_oneof![Just(66_000u32), Just(140_000), Just(300_000)].prop_map(Prov::ShrunkFrom),
         2 => any::<u16>().prop_map(Prov::TruncThenPush),
     ]
 }
 
-/// Zoo type index; the two unbounded types are drawn three times as often as each fixed shape.
+/// Zoo type index; the two unbounded types are drawn three times as often as each fixed shape,
+/// the 70 400-bit fixed type about once in a hundred (its operations cost milliseconds).
 pub fn arb_tid() -> impl Strategy<Value = Tid> {
     prop_oneof![
-        18 => (0usize..18).prop_map(|i| FIXED_TIDS[i]),
-        3 => Just(TID_D),
-        3 => Just(TID_A),
+        72 => (0usize..20).prop_map(|i| ROUTINE_FIXED[i]),
+        12 => Just(TID_D),
+        12 => Just(TID_A),
+        1 => Just(TID_HUGE),
     ]
 }
 
@@ -350,6 +362,25 @@ pub fn dense_max(tier: Tier) -> usize {
 pub fn dense_lengths(tier: Tier) -> impl Iterator<Item = (Tid, usize)> {
     (321..=dense_max(tier)).map(|n| (if n % 2 == 0 { TID_D } else { TID_A }, n))
 }
+
+/// Geometric ladder of very long lengths for the unbounded types: around every power of two from
+/// 2^14 up to 2^21 (quick) / 2^24 (thorough) bits - absolute-size thresholds (a block size, a
+/// "large input" fast path) between the dense sweep and a few megabytes.
+pub fn ladder_lengths(tier: Tier) -> Vec<(Tid, usize)> {
+    let kmax = tier.pick(21, 24);
+    let mut v = Vec::new();
+    for k in 14..=kmax {
+        let p = 1usize << k;
+        for (j, n) in [p - 1, p, p + 1, p + 8 * k + 3, p + p / 2 + 5].into_iter().enumerate() {
+            v.push((if (j + k) % 2 == 0 { TID_D } else { TID_A }, n));
+        }
+    }
+    v
+}
+
+/// Type pairings that involve the 70 400-bit fixed type, and the lengths explored on it.
+pub const HUGE_PAIRS: [(Tid, Tid); 7] = [(TID_HUGE, TID_HUGE), (TID_HUGE, TID_D), (TID_HUGE, TID_A), (TID_D, TID_HUGE), (TID_A, TID_HUGE), (TID_HUGE, 18), (18, TID_HUGE)];
+pub const HUGE_TYPE_LENS: [usize; 7] = [131, 4097, 8193, 65535, 65537, 70399, 70400];
 
 pub fn dense_value(n: usize) -> Bits {
     realize_val(&ValPat::Dense(vec![0x9E37_79B9_7F4A_7C15, 0xD1B5_4A32_D192_ED03, 0x0123_4567_89AB_CDEF, 0xFEDC_BA98_7654_3210, 0x0F1E_2D3C_4B5A_6978]), n, 64)
